@@ -54,9 +54,11 @@ def deleted_continuity(c0, c1):
     return v
 
 
-def find_version(lab, c, disk, f, only_hash_of_block=None):
+def find_version(lab, c, disk, f, only_hash_of_block=None, any_stamp=False):
     """bytes of the version of file f (content record) that was synced, or None.
-    Candidates come from the version store by identity; the recorded BLK/REP hashes pick among them."""
+    Candidates come from the version store by identity; the recorded BLK/REP hashes pick among them.
+    any_stamp: every version this path ever had with this size, whatever its time-stamp (the recorded stamp can be one no version
+    ever carried: `touch` gives a record the new sub-second part while its seconds stay those of the synced version)"""
     sub = f.sub.decode(errors="surrogateescape")
     cands = []
     for (d, path, size, mt), vs in lab.versions.items():
@@ -65,11 +67,14 @@ def find_version(lab, c, disk, f, only_hash_of_block=None):
         pth = path if isinstance(path, str) else path.decode(errors="surrogateescape")
         if pth != sub:
             continue
-        if mt // 10**9 != f.mtime_sec:
-            continue
-        if f.mtime_nsec is not None and mt % 10**9 != f.mtime_nsec:
-            continue
-        cands.extend(vs)
+        if not any_stamp:
+            if mt // 10**9 != f.mtime_sec:
+                continue
+            if f.mtime_nsec is not None and mt % 10**9 != f.mtime_nsec:
+                continue
+        for x in vs:
+            if x not in cands:
+                cands.append(x)
     return cands
 
 
@@ -134,7 +139,11 @@ def check(lab, c=None, z=None):
         k = (dname, f.sub)
         if k not in ver:
             cands = find_version(lab, c, dname.decode(), f)
-            ver[k] = (pick_version(c, f, cands), len(cands))
+            got = pick_version(c, f, cands)
+            if got is None:
+                cands = find_version(lab, c, dname.decode(), f, any_stamp=True)
+                got = pick_version(c, f, cands)
+            ver[k] = (got, len(cands))
         return ver[k]
 
     # --- hash sanity for BLK blocks (this is what identifies 'the synced contents')
